@@ -85,3 +85,44 @@ func VfC06_Selection() {
 		nd.Assert(h.ConnCount() == 0, "no host keeps a connection count when nothing is in flight")
 	}
 }
+
+// VfC06_RemovalAfterReannounce: the controller announces an address again (a fresh host object,
+// same or other type, as it builds them from endpoints) before a client connects; when the address
+// is then removed from the service, the connection that was relayed to it is closed and the
+// address is never selected again. The object a connection is relayed on is the set's member.
+func VfC06_RemovalAfterReannounce() {
+	nd.ConcreteClock(true)
+	bufSize = 4
+	var log []string
+	p := vfNewTCPProc(0, host.New("m1:1"))
+	switch nd.Concrete(nd.IntRange("reannounce", 0, 2)) {
+	case 1:
+		p.OnSvcHostAdd([]*host.Host{host.New("m1:1")})
+	case 2:
+		p.OnSvcHostAdd([]*host.Host{host.NewWithType("m1:1", host.TypeBackup)})
+	}
+	if nd.Bool("marked-down-and-up") {
+		for _, h := range p.hostSet.All() {
+			p.hostSet.MarkHostUnhealthy(h)
+			nd.Assert(len(p.hostSet.Healthy()) == 0, "a member marked unhealthy is not usable (also after it was announced again)")
+			p.hostSet.MarkHostHealthy(h)
+		}
+	}
+	client := vfNewIdleConn("client", &log)
+	backend := vfNewIdleConn("backend", &log)
+	client.reads, backend.reads = [][]byte{[]byte("abc")}, [][]byte{[]byte("defgh")}
+	oldDial := dialTimeout
+	defer func() { dialTimeout = oldDial }()
+	dials := 0
+	dialTimeout = func(network, address string, timeout time.Duration) (net.Conn, error) { dials++; return backend, nil }
+	returned := false
+	go func() { p.HandleConn(client); returned = true }()
+	nd.PanicLabel("handle-conn")
+	nd.Quiesce()
+	nd.Assert(dials == 1 && !returned, "the connection is relayed to the (re-announced) host")
+	p.OnSvcHostRemove([]*host.Host{host.New("m1:1")})
+	nd.Quiesce()
+	nd.Assert(backend.closed && client.closed && returned, "established connections to a removed host are closed, also when the address had been announced again before")
+	nd.Assert(len(p.hostSet.Healthy()) == 0 && !p.hostSet.Exist("m1:1"), "the removed address is no longer a member nor usable")
+	nd.Cover("closed-on-removal")
+}
